@@ -10,13 +10,22 @@ def views_run(name="views"):
                                     invariants=["ViewsAgree", "OrderIsSumOfLevels", "ExportViews"]), name, workers=6, timeout=900)
 
 
+def refine_nested_run(name="refine_nested"):
+    return run_tlc("RefineN.tla", cfg(invariants=["RefinesNested", "OrderIsSum"]), name, workers=4, timeout=900)
+
+
 def run(tier):
     chk = Check("C04", tier, "model_checking")
     build_harness("hcore")
     nprog = 120 if tier == "quick" else 3000
-    vw, tw, tb, p1, p2, p1b = parallel([views_run, towers_run, tables_run,
+    rn, vw, tw, tb, p1, p2, p1b = parallel([refine_nested_run, views_run, towers_run, tables_run,
                                         lambda: programs_run(1, 6, nprog, "prog4_1_6"), lambda: programs_run(2, 8, nprog, "prog4_2_8"),
-                                        lambda: programs_run(1, 12, nprog, "prog4_1_12")], max_par=6)
+                                        lambda: programs_run(1, 12, nprog, "prog4_1_12")], max_par=7)
+    chk.add_tlc(rn, "nested dual numbers refine layer A symbolically: layer B instantiated over layer B (13 scalar type pairs of total "
+                    "order <= 4) against Leibniz / Faa di Bruno / the implicit quotient on the flattened jet; tower of towers for the "
+                    "chain rule; from_inner; NDERIV = sum over levels")
+    if rn.violated or rn.distinct < 90:
+        chk.model_violation(rn, "RefineN")
     chk.add_tlc(vw, "correspondence table: every read (type, seeding, location) = formal partial derivative of the generic polynomial, "
                     "proved on the flattened layer-A jets; NDERIV = sum over levels")
     chk.add_tlc(tw, "towers")
